@@ -55,6 +55,8 @@ def gen_plan(rng, tier, run):
                 r2 = random.Random(rng.randrange(1 << 30))
                 s["payload"] = bytes(r2.randrange(256) for _ in range(n)).hex() if n < 6000 else (bytes(range(256)) * 256)[:n].hex()
     return {"pels": pels, "plugins": plugins, "skip_plugins": rng.random() < 0.25,
+            # the encoding of the terminal / pipe peltool prints to (LANG=C, PYTHONIOENCODING=...)
+            "stdout_encoding": rng.choice(["utf-8", "utf-8", "ascii", "latin-1"]),
             "order": {"policy": rng.choice(["perm", "asc", "desc"]), "key": rng.randrange(1 << 30)}}
 
 
@@ -87,9 +89,9 @@ def execute(plan):
         parse = plug.repo_hexdump_parse()
         results = []
         for p in plan["pels"]:
-            r = w.run(["-f", "@/D/" + p["name"], "-E"] + extra)
+            r = w.run(["-f", "@/D/" + p["name"], "-E"] + extra, stdout_encoding=plan.get("stdout_encoding", "utf-8"))
             results.append(("f", [p], r))
-        r = w.run(["-p", "@/D", "-a", "-E"] + extra, order=plan["order"])
+        r = w.run(["-p", "@/D", "-a", "-E"] + extra, order=plan["order"], stdout_encoding=plan.get("stdout_encoding", "utf-8"))
         results.append(("a", sorted(plan["pels"], key=lambda p: p["name"]), r))
     for kind, pels, r in results:
         events += len(r.events)
